@@ -197,18 +197,21 @@ fn main() {
         // ---- hand-written FDT without FEC-OTI attributes: the writer is created inside push()
         let fecs: [u8; 4] = [0, 5, 129, 6];
         let lens: [usize; 4] = [0, 1, 16, 40];
-        let n2 = fecs.len() * lens.len() * n_scripts * 3 * 3;
+        let n2 = fecs.len() * lens.len() * n_scripts * 6 * 3;
         gens.push(Gen::new("fdt_without_oti", n2, move |ctx, i| {
             let fec = fecs[i % fecs.len()];
             let len = lens[(i / fecs.len()) % lens.len()];
             let sc_i = (i / (fecs.len() * lens.len())) % n_scripts;
-            let variant = (i / (fecs.len() * lens.len() * n_scripts)) % 3; // 0 fdt first, 1 object first, 2 fdt in the middle
+            // 0 fdt first, 1 object first, 2 fdt in the middle; 3-5: single-symbol blocks and EXT_FTI on SOME packets only
+            // (the others wait in the cache until a packet with EXT_FTI opens the writer inside push()):
+            // 3 reverse order, FTI on the last packet pushed; 4 every packet first without then with FTI; 5 in order, FTI on the last
+            let variant = (i / (fecs.len() * lens.len() * n_scripts)) % 6;
             // announced Content-Length vs real length (null encoding): equal, larger, smaller
-            let cl_delta: i64 = [0i64, 5, -1][i / (fecs.len() * lens.len() * n_scripts * 3)];
+            let cl_delta: i64 = [0i64, 5, -1][(i / (fecs.len() * lens.len() * n_scripts * 6)) % 3];
             let mut rng = Rng::keyed(ctx.seed, "C09b", 0, i as u64);
             let data = rng.bytes(len);
             let e = 8usize;
-            let b = 4usize;
+            let b = if variant >= 3 { 1usize } else { 4usize };
             let part = ref_partition(b as u128, len as u128, e as u128);
             let toi: u128 = 7;
             let tsi = 3;
@@ -220,10 +223,12 @@ fn main() {
             // object packets with in-band FTI built by the independent encoder (source symbols only)
             let fti = Fti { fec, l: len as u64, e: e as u16, b: b as u32, max_n: Some(b as u32 + 2), instance: Some(0), z: Some(part.n.max(1) as u32), n: Some(1), al: Some(1), m: None, g: None };
             let mut objp: Vec<Vec<u8>> = vec![];
+            let mut objp_nofti: Vec<Vec<u8>> = vec![];
             let mut l = wire::enc_lct(tsi, toi, fec);
             if len == 0 {
                 l.b = true;
                 objp.push(wire::encode(&l, &[wire::ext_fti(&fti)], &wire::payload_id(fec, 0, 0, 0, 8), &[]));
+                objp_nofti.push(wire::encode(&l, &[], &wire::payload_id(fec, 0, 0, 0, 8), &[]));
             }
             for sbn in 0..part.n {
                 let off = part.offset(sbn, e as u128) as usize;
@@ -237,6 +242,7 @@ fn main() {
                     }
                     l.b = sbn + 1 == part.n && esi + 1 == k;
                     objp.push(wire::encode(&l, &[wire::ext_fti(&fti)], &wire::payload_id(fec, sbn as u32, esi as u32, k as u16, 8), &sym));
+                    objp_nofti.push(wire::encode(&l, &[], &wire::payload_id(fec, sbn as u32, esi as u32, k as u16, 8), &sym));
                 }
             }
             let mut seq: Vec<Vec<u8>> = vec![];
@@ -250,11 +256,32 @@ fn main() {
                     seq.extend(fdt.clone());
                     seq.extend(objp.clone());
                 }
-                _ => {
+                2 => {
                     let h = objp.len() / 2;
                     seq.extend(objp[..h].to_vec());
                     seq.extend(fdt.clone());
                     seq.extend(objp[h..].to_vec());
+                }
+                3 => {
+                    seq.extend(fdt.clone());
+                    let n = objp.len();
+                    for k in (0..n).rev() {
+                        seq.push(if k == 0 { objp[k].clone() } else { objp_nofti[k].clone() });
+                    }
+                }
+                4 => {
+                    seq.extend(fdt.clone());
+                    for k in 0..objp.len() {
+                        seq.push(objp_nofti[k].clone());
+                        seq.push(objp[k].clone());
+                    }
+                }
+                _ => {
+                    seq.extend(fdt.clone());
+                    let n = objp.len();
+                    for k in 0..n {
+                        seq.push(if k + 1 == n { objp[k].clone() } else { objp_nofti[k].clone() });
+                    }
                 }
             }
             let (sname, script) = scripts(&mut rng, part.n as usize)[sc_i].clone();
